@@ -656,6 +656,10 @@ func firstSizeDiff(a, b []*Node) string {
 // type is kept by UnknownBox, all others except mdat are written back compact).
 var Registered = map[string]bool{}
 
+// UnknownRegistered: registered types whose registered decoder is DecodeUnknown(SR): they are UnknownBoxes and keep a
+// large-size header like any unregistered type.
+var UnknownRegistered = map[string]bool{"iods": true}
+
 // CompactLarge rewrites in with every large-size header of a registered non-mdat box replaced by a compact
 // one (sizes of the box and of its ancestors adjusted), using the scanner's view of in.
 func CompactLarge(in []byte) []byte {
@@ -677,7 +681,7 @@ func CompactLarge(in []byte) []byte {
 	}
 	var rebuild func(n *Node) []byte
 	rebuild = func(n *Node) []byte {
-		compact := n.HdrLen == 16 && n.Type != "mdat" && Registered[n.Type]
+		compact := n.HdrLen == 16 && n.Type != "mdat" && Registered[n.Type] && !UnknownRegistered[n.Type]
 		var o []byte
 		if compact {
 			o = append(o, 0, 0, 0, 0)
